@@ -31,7 +31,8 @@ LITERALS = [
     "two  blanks", "   lead", "*emph* _u_", "[link](http://x)", "`code`", "# head", "a | b | c", "$x^2$", "{!inc!}", "~~s~~", "<img src=x onerror=y>", "100% <done>",
     "@note not a note", "[[not_a_link]]", "(a,i0,'<',f8.3)", "a,b;c", "Mixed CASE <B>Text</B>", "UPPER & lower", "tab\there" if False else "a->b", "<= >= /= ==",
 ]
-EXPRS = ["merge(1, 2, ka < kb)", "merge(1, 2, ka<kb)", "merge(4, 8, ka > kb)", "merge(1, 2, ka <= kb .and. kb >= ka)", "merge(2, 3, ka /= kb)", "merge(2, 3, ka == kb)", "max(ka, kb)"]
+EXPRS = ["merge(1, 2, ka < kb)", "merge(1, 2, ka<kb)", "merge(4, 8, ka > kb)", "merge(1, 2, ka <= kb .and. kb >= ka)", "merge(2, 3, ka /= kb)", "merge(2, 3, ka == kb)", "max(ka, kb)",
+         "(ka+kb)/2", "ka/2 + 1", "kb*2/ka"]  # a `/` once made the URL filter treat the declaration as a path
 
 
 def benign(s):
@@ -101,6 +102,21 @@ def build(seed):
             L.append(f"logical, parameter :: {v} = {e}")
         L.append(f"!! doc of {v}")
         checks.append({"page": mpage, "fragment": e, "where": where})
+    # old-style length given with the entity: the declaration text must still carry it
+    for form in rng.sample(["scalar", "array", "assumed"], rng.randint(1, 2)):
+        v = nm("hq")
+        ln = 4000 + rng.randint(1, 900)
+        if form == "scalar":
+            L.append(f"character :: {v}*{ln}")
+            frag = f"{v}*{ln}"
+        elif form == "array":
+            L.append(f"character :: {v}(2)*{ln}")
+            frag = f"{v}(2)*{ln}"
+        else:
+            L.append(f"character(len=2), parameter :: {v}*(*) = 'ab'")
+            frag = f"{v}*(*)"
+        L.append(f"!! doc of {v}")
+        checks.append({"page": mpage, "fragment": frag, "where": "entity_char_length"})
     # a derived type with hostile component defaults
     t = nm("ht")
     L += [f"type :: {t}", "!! type doc"]
@@ -133,6 +149,10 @@ def build(seed):
           "integer(c_int), value :: b", "!! b doc"]
     l = lit(rng.choice(LITERALS))
     lv = nm("hl")
+    lt = nm("hy")
+    # a derived type local to the procedure has no page of its own: its name is shown as plain text
+    L += [f"type :: {lt}", "!! local type doc", "integer :: q", f"end type {lt}"]
+    checks.append({"page": f"proc/{p}.html", "fragment": f"type :: {lt}", "where": "local_type_heading"})
     L += [f"character(len=20), parameter :: {lv} = {l}", "!! local doc", f"end subroutine {p}"]
     checks.append({"page": f"proc/{p}.html", "fragment": l, "where": "local_initial_literal"})
     if bn != "c_name":
